@@ -26,8 +26,8 @@ use crate::{
     expression::Expression,
     instruction::{
         CalibrationDefinition, Capture, Delay, Fence, FrameIdentifier, Gate, Instruction,
-        MeasureCalibrationDefinition, Measurement, Pulse, Qubit, RawCapture, SetFrequency,
-        SetPhase, SetScale, ShiftFrequency, ShiftPhase,
+        MeasureCalibrationDefinition, Measurement, Pulse, Qubit, RawCapture, Reset, SetFrequency,
+        SetPhase, SetScale, ShiftFrequency, ShiftPhase, SwapPhases,
     },
 };
 
@@ -115,6 +115,67 @@ impl Calibrations {
                     .map(Instruction::MeasureCalibrationDefinition),
             )
             .collect()
+    }
+}
+
+/// Replace every qubit variable of `instruction` that has an entry in `qubit_expansions` by the
+/// qubit it stands for (used when a calibration body is instantiated for a gate or measurement).
+fn substitute_qubit_variables(
+    instruction: &mut Instruction,
+    qubit_expansions: &HashMap<&String, Qubit>,
+) {
+    let substitute = |qubit: &mut Qubit| {
+        if let Qubit::Variable(name) = qubit {
+            if let Some(expansion) = qubit_expansions.get(name) {
+                *qubit = expansion.clone();
+            }
+        }
+    };
+
+    match instruction {
+        Instruction::Gate(Gate { qubits, .. })
+        | Instruction::Delay(Delay { qubits, .. })
+        | Instruction::Capture(Capture {
+            frame: FrameIdentifier { qubits, .. },
+            ..
+        })
+        | Instruction::RawCapture(RawCapture {
+            frame: FrameIdentifier { qubits, .. },
+            ..
+        })
+        | Instruction::SetFrequency(SetFrequency {
+            frame: FrameIdentifier { qubits, .. },
+            ..
+        })
+        | Instruction::SetPhase(SetPhase {
+            frame: FrameIdentifier { qubits, .. },
+            ..
+        })
+        | Instruction::SetScale(SetScale {
+            frame: FrameIdentifier { qubits, .. },
+            ..
+        })
+        | Instruction::ShiftFrequency(ShiftFrequency {
+            frame: FrameIdentifier { qubits, .. },
+            ..
+        })
+        | Instruction::ShiftPhase(ShiftPhase {
+            frame: FrameIdentifier { qubits, .. },
+            ..
+        })
+        | Instruction::Pulse(Pulse {
+            frame: FrameIdentifier { qubits, .. },
+            ..
+        })
+        | Instruction::Fence(Fence { qubits }) => qubits.iter_mut().for_each(substitute),
+        Instruction::SwapPhases(SwapPhases { frame_1, frame_2 }) => frame_1
+            .qubits
+            .iter_mut()
+            .chain(frame_2.qubits.iter_mut())
+            .for_each(substitute),
+        Instruction::Measurement(Measurement { qubit, .. }) => substitute(qubit),
+        Instruction::Reset(Reset { qubit: Some(qubit) }) => substitute(qubit),
+        _ => {}
     }
 }
 
@@ -356,57 +417,8 @@ impl Calibrations {
                         let mut instructions = calibration.instructions.clone();
 
                         for instruction in instructions.iter_mut() {
-                            match instruction {
-                                Instruction::Gate(Gate { qubits, .. })
-                                | Instruction::Delay(Delay { qubits, .. })
-                                | Instruction::Capture(Capture {
-                                    frame: FrameIdentifier { qubits, .. },
-                                    ..
-                                })
-                                | Instruction::RawCapture(RawCapture {
-                                    frame: FrameIdentifier { qubits, .. },
-                                    ..
-                                })
-                                | Instruction::SetFrequency(SetFrequency {
-                                    frame: FrameIdentifier { qubits, .. },
-                                    ..
-                                })
-                                | Instruction::SetPhase(SetPhase {
-                                    frame: FrameIdentifier { qubits, .. },
-                                    ..
-                                })
-                                | Instruction::SetScale(SetScale {
-                                    frame: FrameIdentifier { qubits, .. },
-                                    ..
-                                })
-                                | Instruction::ShiftFrequency(ShiftFrequency {
-                                    frame: FrameIdentifier { qubits, .. },
-                                    ..
-                                })
-                                | Instruction::ShiftPhase(ShiftPhase {
-                                    frame: FrameIdentifier { qubits, .. },
-                                    ..
-                                })
-                                | Instruction::Pulse(Pulse {
-                                    frame: FrameIdentifier { qubits, .. },
-                                    ..
-                                })
-                                | Instruction::Fence(Fence { qubits }) => {
-                                    // Swap all qubits for their concrete implementations
-                                    for qubit in qubits {
-                                        match qubit {
-                                            Qubit::Variable(name) => {
-                                                if let Some(expansion) = qubit_expansions.get(name)
-                                                {
-                                                    *qubit = expansion.clone();
-                                                }
-                                            }
-                                            Qubit::Fixed(_) | Qubit::Placeholder(_) => {}
-                                        }
-                                    }
-                                }
-                                _ => {}
-                            }
+                            // Swap all qubit variables for their concrete implementations
+                            substitute_qubit_variables(instruction, &qubit_expansions);
 
                             instruction.apply_to_expressions(|expr| {
                                 *expr = expr.substitute_variables(&variable_expansions);
@@ -426,8 +438,18 @@ impl Calibrations {
 
                 match matching_calibration {
                     Some(calibration) => {
+                        let mut qubit_expansions: HashMap<&String, Qubit> = HashMap::new();
+                        if let Qubit::Variable(identifier) = &calibration.identifier.qubit {
+                            qubit_expansions.insert(identifier, measurement.qubit.clone());
+                        }
+
                         let mut instructions = calibration.instructions.clone();
                         for instruction in instructions.iter_mut() {
+                            // The measured qubit replaces the calibration's qubit variable
+                            substitute_qubit_variables(instruction, &qubit_expansions);
+
+                            // The measurement's target replaces uses of the calibration's target name;
+                            // other memory references stay as written.
                             match instruction {
                                 Instruction::Pragma(pragma)
                                     if pragma.name == "LOAD-MEMORY"
@@ -437,9 +459,18 @@ impl Calibrations {
                                         pragma.data = Some(target.to_quil_or_debug())
                                     }
                                 }
-                                Instruction::Capture(capture) => {
+                                Instruction::Capture(Capture {
+                                    memory_reference, ..
+                                })
+                                | Instruction::RawCapture(RawCapture {
+                                    memory_reference, ..
+                                }) => {
                                     if let Some(target) = &measurement.target {
-                                        capture.memory_reference = target.clone()
+                                        if Some(&memory_reference.name)
+                                            == calibration.identifier.target.as_ref()
+                                        {
+                                            *memory_reference = target.clone()
+                                        }
                                     }
                                 }
                                 _ => {}
